@@ -163,6 +163,21 @@ CLAIMS = {
          '(the format\'s own limit); the line-length claim is unconditional.',
          'Lean 4 proof (reduction of the export text to an admissible import layout) + differential correspondence'),
 
+ 'C20': ('Lean 4 theorems about the model of PlayerThread._connect (admitReq) and of the accept loop (serve = fold over the requests in accept '
+         'order, stopping when the table is full): accept_iff_ok (seated IFF version 18, seat free, partner unseated or same team — at its turn), '
+         'error_is_first_failing_test, reject_leaves_table_unchanged (a rejection changes nothing; an acceptance writes exactly its own seat), '
+         'loop_continues_until_full (a rejection never stops the loop; nothing is served after the table is full), one_client_per_seat (for EVERY '
+         'request sequence at most one request is seated per seat and every occupied seat belongs to exactly one seated request, under its team '
+         'name), partners_share_team (every reachable table), teams_message_correct (full table => the Teams message names each side\'s team), '
+         'verdicts_are_a_prefix, order_matters. Unbounded sequences, by an invariant over the fold. Tie to /repo: request sequences (and '
+         'free-for-all arrivals) from concurrently scheduled clients against the unmodified threaded server; verdict kinds, seated replies, closed '
+         'connections, final table, Teams messages of all four, first board started, session completed.',
+         'Trusted: Lean kernel (3 standard axioms); the accept loop serialises admissions (it waits for each connection thread\'s verdict event '
+         'before the next accept: modelled as a fold, exercised by the free-arrival mode); Event / socket / Barrier semantics; accept order = '
+         'connect order. Partial aspect: the per-connection handshake (event set / wait / clear, time.sleep, is_alive) is exercised under the '
+         'scheduler but not itself part of the Lean model.',
+         'Lean 4 proof (invariant over the admission fold) + differential correspondence under a deterministic scheduler'),
+
  'C19': ('Lean 4 theorems about the models of the message builders and parsers of both ends (each parser = its regular expression with re.match '
          'semantics: greedy groups with backtracking, case-insensitive literals): hand_msg_round_trip (any hand, voids, any seat name / Dummy), '
          'bid_msg_round_trip (38 calls x 4 seats, ANY letter case), bid_msg_alert_round_trip (alert suffix stripped, same call), '
